@@ -291,7 +291,8 @@ impl Sim {
         let mut n = 0;
         loop {
             let mut buf: Vec<DelayedAction> = Vec::with_capacity(16);
-            let got = self.delayed.recv_many(&mut buf).now_or_never();
+            // unconstrained: tokio's cooperative budget must not make a ready queue look empty
+            let got = tokio::task::unconstrained(self.delayed.recv_many(&mut buf)).now_or_never();
             match got {
                 Some(k) if k > 0 => {
                     let ct = self.ct();
@@ -795,4 +796,29 @@ pub fn run_case<F: FnOnce() -> R, R>(f: F) -> Result<R, String> {
             .or_else(|| e.downcast_ref::<&str>().map(|s| s.to_string()))
             .unwrap_or_else(|| "panic".into())
     })
+}
+
+/// Replay support: `--replay <file>` (a witness written by an earlier run) or `only=<worker>:<n>`
+/// restricts a run to the one history / batch the witness came from, under the same seed and tier.
+pub fn replay_target(args: &mut kvcore::Args) -> Option<String> {
+    if let Some(p) = args.replay.clone() {
+        if let Ok(txt) = std::fs::read_to_string(&p) {
+            if let Ok(v) = serde_json::from_str::<Json>(&txt) {
+                if let Some(s) = v.get("seed").and_then(|s| s.as_u64()) {
+                    args.seed = s;
+                }
+                match v.get("tier").and_then(|s| s.as_str()) {
+                    Some("thorough") => args.tier = kvcore::Tier::Thorough,
+                    Some("quick") => args.tier = kvcore::Tier::Quick,
+                    _ => {}
+                }
+                if let Some(h) = v.get("witness").and_then(|w| w.get("history")).and_then(|h| h.as_str()) {
+                    return Some(h.to_string());
+                }
+            }
+        }
+    }
+    args.rest
+        .iter()
+        .find_map(|a| a.strip_prefix("only=").map(str::to_string))
 }
